@@ -1,8 +1,11 @@
 import Driver.Util
 import Driver.Bulk
+import Driver.SqlText
 /-! registry of the areas the driver serves -/
 namespace Driver
 def areas : List (String × Handler) := [
-  ("bulk", BulkD.handle)
+  ("bulk", BulkD.handle),
+  ("sqltext", SqlTextD.handle),
+  ("sqllex", SqlTextD.handleLex)
 ]
 end Driver
